@@ -338,6 +338,21 @@ func runC08(c *Ctx) {
 				runFramed(fmt.Sprintf("key-%d-bytes", kl), exp, prior, key, nil, func() *drv.Resp { return s.Put(bucket, key, body, nil) }, nil, "-")
 				s.Delete(bucket, key)
 			}
+			// the limit is in bytes of the UTF-8 encoding: multi-byte keys over 1024 bytes but under 1024 characters
+			for _, mk := range []struct{ name, key string }{
+				{"key-1026-bytes-513-chars", strings.Repeat("é", 513)},
+				{"key-1025-bytes-513-chars", "a" + strings.Repeat("é", 512)},
+				{"key-1026-bytes-342-chars", strings.Repeat("€", 342)},
+				{"key-2048-bytes-1024-chars", strings.Repeat("é", 1024)},
+				{"key-1028-bytes-257-chars", strings.Repeat("𝄞", 257)},
+			} {
+				if prior == "present" {
+					continue
+				}
+				key := mk.key
+				runFramed(mk.name, "reject", prior, key, nil, func() *drv.Resp { return s.Put(bucket, key, body, nil) }, nil, "-")
+				s.Delete(bucket, key)
+			}
 			// reader failing after k bytes: every k for a small body, buffer boundaries for a large one
 			small := gen.Body(rng, smallLen, gen.PatRandom, uint32(ji+200))
 			key := "frame/" + prior + "/failing-reader"
